@@ -81,6 +81,13 @@ def gen_world(rng, max_wrappers=5):
 
 
 def gen_policy(rng, est_steps):
+    pol = _gen_policy(rng, est_steps)
+    # timed waits on a held lock: how often the simulator lets them expire (slow holder / clock jump)
+    pol["tw"] = {"pct": rng.choice([0, 30, 70, 100]), "salt": rng.randrange(1 << 30)}
+    return pol
+
+
+def _gen_policy(rng, est_steps):
     kind = rng.choice(["uniform", "uniform", "targeted", "targeted", "quantum", "pct"])
     if kind == "uniform":
         return {"kind": kind, "p": rng.choice([0.01, 0.05, 0.2, 0.5])}
